@@ -1,7 +1,8 @@
 from io import BytesIO
 
 from btc_hd_wallet.helper import (
-    encode_varint, read_varint, little_endian_to_int, int_to_little_endian
+    encode_varint, read_varint, read_exactly, little_endian_to_int,
+    int_to_little_endian
 )
 from btc_hd_wallet.op import OP_CODE_NAMES
 
@@ -106,23 +107,23 @@ class Script:
         count = 0
         # we parse until the right of bytes is consumed
         while count < length:
-            current = s.read(1)
+            current = read_exactly(s, 1)
             count += 1
             # This converts the byte into an integer in Python.
             current_byte = current[0]
             if 1 <= current_byte <= 75:
                 n = current_byte
-                cmds.append(s.read(n))
+                cmds.append(read_exactly(s, n))
                 count += n
             # 76 OP_PUSHDATA1,  next byte tells us how many bytes to read.
             elif current_byte == 76:
-                data_length = little_endian_to_int(s.read(1))
-                cmds.append(s.read(data_length))
+                data_length = little_endian_to_int(read_exactly(s, 1))
+                cmds.append(read_exactly(s, data_length))
                 count += data_length + 1
             # 77 OP_PUSHDATA2, next two bytes tell us how many bytes to read.
             elif current_byte == 77:
-                data_length = little_endian_to_int(s.read(2))
-                cmds.append(s.read(data_length))
+                data_length = little_endian_to_int(read_exactly(s, 2))
+                cmds.append(read_exactly(s, data_length))
                 count += data_length + 2
             else:
                 # opcode
